@@ -593,6 +593,30 @@ example :
     (exProtected.bind fun P => okOf (unprotect transparentAead exB none
       { P.outer with opts := [(6, []), (9, [2, 1, 44])] })).isSome = true := by decide +kernel
 
+/-- the model reproduces the published values of RFC 8613 appendix C.4 (request, client with
+empty sender id, sequence number 20): external AAD, Encrypt0 AAD, nonce, OSCORE option — and the
+option of C.6 (ID context `37cbf3210017a2d3`) -/
+example :
+    externalAad 10 [] [0x14] = [0x85, 0x01, 0x81, 0x0a, 0x40, 0x41, 0x14, 0x40] ∧
+    aad 10 [] [0x14] = [0x83, 0x68, 0x45, 0x6e, 0x63, 0x72, 0x79, 0x70, 0x74, 0x30, 0x40, 0x48,
+      0x85, 0x01, 0x81, 0x0a, 0x40, 0x41, 0x14, 0x40] ∧
+    constructNonce 13 [0x46, 0x22, 0xd4, 0xdd, 0x6d, 0x94, 0x41, 0x68, 0xee, 0xfb, 0x54, 0x98, 0x7c]
+      [0x14] [] =
+      some [0x46, 0x22, 0xd4, 0xdd, 0x6d, 0x94, 0x41, 0x68, 0xee, 0xfb, 0x54, 0x98, 0x68] ∧
+    compress { piv := some [0x14], kid := some [], kidContext := none, group := false } =
+      some [0x09, 0x14] ∧
+    compress { piv := some [0x14], kid := some [],
+               kidContext := some [0x37, 0xcb, 0xf3, 0x21, 0x00, 0x17, 0xa2, 0xd3], group := false } =
+      some [0x19, 0x14, 0x08, 0x37, 0xcb, 0xf3, 0x21, 0x00, 0x17, 0xa2, 0xd3] := by decide +kernel
+
+/-- the confirmed defects, in the model of the fixed code: a context-hint flag without its length
+byte, a reserved Partial-IV length, are decode errors -/
+example : uncompress [0x10] = none ∧ uncompress [0x11, 0x01] = none ∧
+    uncompress [0x0e, 0, 0, 0, 0, 0, 0, 0x6b] = none ∧
+    uncompress [0x19, 0x14, 0x01, 0x37, 0x01] =
+      some { piv := some [0x14], kid := some [1], kidContext := some [0x37], group := false } := by
+  decide +kernel
+
 /-- the hypothesis of the `_partial` ciphertext clauses is satisfiable: a ciphertext with one
 flipped bit is not an encryption of anything under the same key, nonce and AAD -/
 example : ∀ pt', (tEnc [11, 12] [7] [8] [1, 2, 3]).set 3 13 ≠ transparentAead.enc [11, 12] [7] [8] pt' := by
